@@ -20,6 +20,9 @@ P = {
  "C09": ("exploration", "rapid stateful (model-based) PBT: straight-line programs built one action per step, every variable and $ dumped after each step, differential against a reference location model; plus a model-free metamorphic check (read-only programs leave the document unchanged)",
    "6k (120k thorough) histories of up to 15 (40) actions over variables, unset names and $-paths: stores through chains of depth 1-4 with every index class, op=, ++/--, aliasing, stores through parameters and for-in variables, reads of missing paths; all variables and the document are compared with refjq after every action and GetRootJson at the end. 6k (120k) read-only programs must leave the document bit-for-bit equal. Exploration (stateful model-based).",
    "Trusted: refjq's location model (DESIGN.md 4.3). Open finding KF-array-alias (array length per copy) is excluded dynamically: actions that change the length of an array held in two places are dropped at generation time and counted.", "5/C09, 4.3"),
+ "C10": ("exploration", "rapid PBT, metamorphic over run histories: sessions of interleaved repeated runs (A B A C B A ...) in one process, plus fresh-process repeats through the binary; every execution of the same (program, selectors, input) must be byte-identical in stdout, JSON output and error",
+   "2.5k (60k thorough) sessions of 2-4 triples x 8 executions each: objects with 2-12 keys printed / iterated / formatted from every source, method lookups of every prototype, 'intruder' programs that assign to method names and builtins, and programs from five other generators including failing ones. Exploration (metamorphic: repeat / interleave).",
+   "Probabilistic for randomised orders (<= 3^-7 per case with >= 3 keys); state leaking between runs is only found if some generated program observes it.", "5/C10"),
  "C11": ("fault_enumeration", "rapid PBT with fault injection: (a) syntax-error splices at generated positions with a model-free oracle (SyntaxError, no output); (b) 23 runtime fault kits injected into syntactic slots chosen uniformly over 29 slot kinds, differential against a reference model that decides whether the slot is reached",
    "(a) 6k (200k thorough) splices of 9 recipe families into valid tracing programs at any token boundary / statement start; (b) 12k (300k) faulted programs: if refjq reaches the kit the run must be a RuntimeError with exactly the prior output, if the slot is dead the program must behave as without the fault; the evidence lists the kit x slot-kind matrix. Fault enumeration: every fault kind at every syntactic slot kind, over generated surrounding programs.",
    "Trusted: refjq for reachability and prior output; every kit is a runtime error by the documents. A stray comma on a line of its own after a print statement is legal by the grammar (it continues the print list) and is not used.", "5/C11"),
